@@ -5,6 +5,7 @@ import (
 	"net"
 	"os"
 	"testing"
+	"time"
 
 	gomavlib "github.com/bluenviron/gomavlib/v3"
 	"github.com/bluenviron/gomavlib/v3/pkg/dialects/ardupilotmega"
@@ -354,6 +355,115 @@ func runC13PartialWrites(items, take int) error {
 	cs, err := counters(pipes[1])
 	if err != nil || len(cs) != items+5 {
 		return fmt.Errorf("the healthy link carries %d items (%v), %d were written", len(cs), err, items+5)
+	}
+	return nil
+}
+
+// TestC13RouterWritesFromItsEventLoop: the usual shape of a router - one routine takes events and, for every frame,
+// writes it to the other links from that same routine. Some of those links are stalled with full backlogs; the
+// node has nothing to say to the application about that which the application would have to fetch first: the
+// loop keeps turning, the healthy link gets every frame.
+func TestC13RouterWritesFromItsEventLoop(t *testing.T) {
+	rec := evid.New(t, "C13", "a node with a source link, a healthy link and 1..3 stalled links (custom transports, blocked writes); the application is one routine that receives events and forwards every frame of the source link with WriteFrameExcept from that routine; 150..300 frames arrive on the source link in bursts of 1..6; the healthy link must carry every one of them, in order, within the bound, and the event loop must have seen every frame; non-trivial = always; distinct by hash of the parameters")
+	rec.Require("application-writes-from-the-routine-that-receives-events")
+	evid.Check(t, rec, evid.N(15, 80), func(t *rapid.T) {
+		drawNodeInit(t)
+		stalled := rapid.IntRange(1, 3).Draw(t, "stalled_links")
+		frames := rapid.IntRange(150, 300).Draw(t, "frames")
+		burst := rapid.IntRange(1, 6).Draw(t, "burst")
+		desc := fmt.Sprintf("stalledLinks=%d frames=%d burst=%d", stalled, frames, burst)
+		if err := watchdog(scenarioLimit, func() error { return runC13Router(stalled, frames, burst) }); err != nil {
+			evid.ReplayNote("C13", "TestC13RouterWritesFromItsEventLoop", desc+"\n"+err.Error())
+			t.Fatalf("%s\n%v", desc, err)
+		}
+		rec.Case(true, evid.HashS(desc), "application-writes-from-the-routine-that-receives-events")
+		if rec.WantSample("router") {
+			rec.Sample("router", desc)
+		}
+	})
+}
+
+func runC13Router(stalled, frames, burst int) error {
+	pipes := make([]*sim.Pipe, 2+stalled)
+	var endpoints []gomavlib.EndpointConf
+	for i := range pipes {
+		pipes[i] = sim.NewPipe()
+		endpoints = append(endpoints, gomavlib.EndpointCustom{ReadWriteCloser: pipes[i]})
+	}
+	n := &gomavlib.Node{Endpoints: endpoints, Dialect: ardupilotmega.Dialect, OutVersion: gomavlib.V2, OutSystemID: nodeSys, HeartbeatDisable: true}
+	if err := initNode(&n); err != nil {
+		return fmt.Errorf("BROKEN: %v", err)
+	}
+	for i := 2; i < len(pipes); i++ {
+		pipes[i].BlockWrites()
+	}
+	seen := make(chan int, frames+8)
+	loopDone := make(chan struct{})
+	go func() {
+		defer close(loopDone)
+		for ev := range n.Events() {
+			if fe, ok := ev.(*gomavlib.EventFrame); ok && isPipeChannel(fe.Channel, pipes[0]) {
+				n.WriteFrameExcept(fe.Channel, fe.Frame) //nolint:errcheck
+				seen <- 1
+			}
+		}
+	}()
+	defer func() {
+		for _, p := range pipes {
+			p.UnblockWrites()
+		}
+		closeNode(n, bound) //nolint:errcheck
+		<-loopDone
+	}()
+	for i := range pipes {
+		if !waitReaderParked(pipes[i]) {
+			return fmt.Errorf("BROKEN: channel reader did not start")
+		}
+	}
+	got := 0
+	for k := 0; k < frames; {
+		var chunk []byte
+		for b := 0; b < burst && k < frames; b++ {
+			chunk = append(chunk, tagged(1, k, "debug", true, nil, 0).Bytes()...)
+			k++
+		}
+		pipes[0].Feed(chunk)
+		// the loop takes the burst before the next one arrives (so that the healthy link's backlog stays small)
+		deadline := time.After(bound)
+		for got < k {
+			select {
+			case <-seen:
+				got++
+			case <-deadline:
+				return fmt.Errorf("%d frames have arrived on the source link, the application's event loop (which forwards each with WriteFrameExcept) has received %d of them and nothing more for %v: with %d links stalled and their backlogs full, the node no longer hands out events (healthy link: %d frames)", k, got, bound, stalled, pipes[1].NumWrites())
+			}
+		}
+		if !pipes[1].WaitWrites(k-30, bound) {
+			return fmt.Errorf("the healthy link has %d of %d forwarded frames", pipes[1].NumWrites(), k)
+		}
+	}
+	if !pipes[1].WaitWrites(frames, bound) {
+		return fmt.Errorf("the healthy link has %d of %d forwarded frames", pipes[1].NumWrites(), frames)
+	}
+	var cs []int
+	for k, b := range pipes[1].Writes() {
+		f, nb, err := ref.Parse(b)
+		if err != nil || nb != len(b) {
+			return fmt.Errorf("write %d on the healthy link is not one whole frame", k)
+		}
+		_, idx, ok := identifyFlat(f)
+		if !ok {
+			return fmt.Errorf("write %d on the healthy link carries something that was never fed", k)
+		}
+		cs = append(cs, idx)
+	}
+	for i, c := range cs {
+		if c != i {
+			return fmt.Errorf("the healthy link's frame %d carries counter %d", i, c)
+		}
+	}
+	if len(cs) != frames {
+		return fmt.Errorf("the healthy link carries %d frames, %d were forwarded", len(cs), frames)
 	}
 	return nil
 }
